@@ -1,6 +1,7 @@
 import Woodpile.Driver.Util
 import Woodpile.Driver.ReadN
-import Woodpile.Model.Iovec
+import Woodpile.Model.IovecOps
+import Woodpile.Model.IovecApi
 import Woodpile.Gen.Consts
 
 /-
@@ -99,200 +100,306 @@ def handle (pfx : Char) (t : String) : Option Nat :=
   | c :: rest => if c = pfx then (String.ofList rest).toNat? else none
   | [] => none
 
-def step (s : St) (ws : List String) : St × List String :=
-  if s.dead then (s, []) else
-  let w := s.w
+
+/-! ### Op words → `WOp` → `World.step`
+
+The theorems of C05 / C10 / C20 (and, through `Props/C05G`, the world-level reading of C03 / C04)
+are about `Woodpile.Iovec.World.step : World → WOp → Option World`.  The driver therefore does not
+wire the model functions a second time: it PARSES an op line into `WOp`s and computes the next
+world with `World.step` / `World.run` itself.  What is left here is presentation: the returned-value
+line (`R …`, computed on the pre-state with the same model function the step uses), the
+classification of `World.step = none` (ill-formed handle → `bad-op`, world kept, exactly as the
+harness answers; the documented wrong-size `backfill_or_panic` panic that the harness catches →
+`R panicked`, world kept; anything else → `panic`), and `describe`. -/
+
+/-- Op words that have a `WOp` constructor (pure syntax; `none` = not such a word / malformed). -/
+def parseWOp (ws : List String) : Option WOp :=
   match ws with
-  | ["new"] => let (w', _) := w.addIov Iov.empty; ok s w'
-  | ["new_arena"] => let (w', _) := w.addArena ⟨none⟩; ok s w'
-  | ["new_from_arena", a] =>
-    match handle 'a' a with
-    | some ai =>
-      match w.arenas.getD ai none with
-      | some ar =>
-        let (w', _) := ({ w with arenas := listSet w.arenas ai none none }).addIov { Iov.empty with arena := ar }
-        ok s w'
-      | none => (s, ["bad-op"])
-    | none => (s, ["bad-op"])
-  | ["new_from_slices", hexes] =>
-    match parseHexList hexes with
-    | some bufs =>
-      let (w', slices) := bufs.foldl (fun (acc : World × List Slice) bs =>
-        let (w1, id) := acc.1.addExt bs
-        (w1, acc.2 ++ [⟨.ext id, 0, bs.length⟩])) (w, [])
-      let (w'', _) := w'.newFromSlices slices ⟨none⟩
-      ok s w''
-    | none => (s, ["bad-op"])
-  | [op, v, hex] =>
-    match handle 'v' v, handle 'a' v, handle 's' v with
-    | some i, _, _ =>
-      match op with
-      | "push" | "push_borrowed" | "push_copy" | "register" | "extend" =>
-        if op = "extend" then
-          match parseHexList hex with
-          | some bufs =>
-            let (w', slices) := bufs.foldl (fun (acc : World × List Slice) bs =>
-              let (w1, id) := acc.1.addExt bs
-              (w1, acc.2 ++ [⟨.ext id, 0, bs.length⟩])) (w, [])
-            match w'.extend i slices with
-            | some w'' => ok s w'' (touched := some i)
-            | none => panic s
-          | none => (s, ["bad-op"])
-        else
-        match parseHex hex with
-        | some bs =>
-          if op = "push_copy" then
-            match w.pushCopy i bs with | some w' => ok s w' (touched := some i) | none => panic s
-          else if op = "register" then
-            match w.registerPatch i bs with
-            | some (w', b) => let (w'', _) := w'.addBref b; ok s w'' ["R len=" ++ toString (match b with | some (_, info) => info.len | none => 0)] (touched := some i)
-            | none => panic s
-          else
-            let (w1, id) := w.addExt bs
-            let sl : Slice := ⟨.ext id, 0, bs.length⟩
-            let r := if op = "push" then w1.push i sl else w1.pushBorrowed i sl
-            match r with | some w' => ok s w' (touched := some i) | none => panic s
-        | none => (s, ["bad-op"])
-      | "consume" | "advance" | "read" | "reserve" =>
-        match hex.toNat? with
-        | some k =>
-          if op = "consume" then
-            match w.consume i k with | some (w', n) => ok s w' ["R " ++ toString n] (touched := some i) | none => panic s
-          else if op = "advance" then
-            match w.advance i k with | some (w', n) => ok s w' ["R " ++ toString n] (touched := some i) | none => panic s
-          else if op = "read" then
-            match World.readInto (k + 2) w i k [] with
-            | some (w', bytes) => ok s w' ["R " ++ toHex bytes] (touched := some i)
-            | none => panic s
-          else
-            match w.iov i with
-            | some v =>
-              let (a', nx) := ensureCapacity w.tun v.arena w.next k
-              ok s ({ w with next := nx }.setIov i (some { v with arena := a' })) (touched := some i)
-            | none => (s, ["bad-op"])
-        | none => (s, ["bad-op"])
-      | "push_aslice" =>
-        match handle 's' hex with
-        | some si =>
-          match w.aslices.getD si none with
-          | some a =>
-            let w0 := { w with aslices := listSet w.aslices si none none }
-            if a.slice.len = 0 then ok s w0 (touched := some i)   -- skipped entirely: no push, anchor dropped
-            else
-              match w0.push i a.slice with
-              | some w1 => match w1.pushAnchor i a.anchor with
-                | some w2 => ok s w2 (touched := some i)
-                | none => panic s
-              | none => panic s
-          | none => (s, ["bad-op"])
-        | none => (s, ["bad-op"])
-      | "swap_arena" =>
-        match handle 'a' hex with
-        | some ai =>
-          match w.iov i, w.arenas.getD ai none with
-          | some v, some ar =>
-            ok s ({ w with arenas := listSet w.arenas ai (some v.arena) none }.setIov i (some { v with arena := ar })) (touched := some i)
-          | _, _ => (s, ["bad-op"])
-        | none => (s, ["bad-op"])
-      | _ => (s, ["bad-op"])
-    | none, some ai, _ =>
-      match op, hex.toNat?, w.arenas.getD ai none with
-      | "a_reserve", some k, some ar =>
-        let (a', nx) := ensureCapacity w.tun ar w.next k
-        ok s { w with next := nx, arenas := listSet w.arenas ai (some a') none }
-      | _, _, _ => (s, ["bad-op"])
-    | none, none, some si =>
-      match hex.toNat?, w.aslices.getD si none with
-      | some k, some a =>
-        match op with
-        | "s_skip" => let (a', n) := a.skipPrefix k; ok s { w with aslices := listSet w.aslices si (some a') none } ["R " ++ toString n]
-        | "s_dropsuf" => let (a', n) := a.dropSuffix k; ok s { w with aslices := listSet w.aslices si (some a') none } ["R " ++ toString n]
-        | "s_split" =>
-          let (l, r) := a.splitAt k
-          let w0 := { w with aslices := listSet w.aslices si none none }
-          let (w1, _) := w0.addASlice l
-          let (w2, _) := w1.addASlice r
-          ok s w2
-        | _ => (s, ["bad-op"])
-      | _, _ => (s, ["bad-op"])
-    | _, _, _ => (s, ["bad-op"])
+  | ["new"] => some .new
+  | ["new_arena"] => some .newArena
+  | ["new_from_arena", a] => (handle 'a' a).map .newFromArena
+  | ["new_from_slices", hexes] => (parseHexList hexes).map .newFromSlices
   | ["backfill", v, b, hex] =>
     match handle 'v' v, handle 'b' b, parseHex hex with
-    | some i, some bi, some bs =>
-      if bi < w.brefs.length then
-        let tok := w.brefs.getD bi none
-        -- a source of the wrong size (for ANY token: own, foreign, stale or empty): the harness
-        -- catches this documented panic and keeps going; `backfill_or_panic` compares the sizes
-        -- before it looks anything up, so nothing has changed
-        let wrongSize : Bool := match tok with
-          | some (_, info) => info.len ≠ bs.length
-          | none => !bs.isEmpty
-        if wrongSize then ok s w ["R panicked"] (touched := some i)
-        else
-        match w.backfill i tok bs with
-        | some w' => ok s w' (touched := some i)
-        | none => panic s
-      else (s, ["bad-op"])
-    | _, _, _ => (s, ["bad-op"])
+    | some i, some bi, some bs => some (.backfill i bi bs)
+    | _, _, _ => none
+  | ["read_n", x, count, attempts, src, script] =>
+    match count.toNat?, attempts.toNat?, parseHex src, ReadNFam.parseScript script with
+    | some c, some att, some src, some sc =>
+      if att = 0 then none      -- `NonZeroUsize`: the harness rejects the line
+      else match handle 'v' x, handle 'a' x with
+        | some i, _ => some (.readNIov i c att src sc)
+        | none, some j => some (.readNArena j c att src sc)
+        | _, _ => none
+    | _, _, _, _ => none
+  | [op, x, arg] =>
+    match handle 'v' x, handle 'a' x, handle 's' x with
+    | some i, _, _ =>
+      match op with
+      | "push" => (parseHex arg).map (.push i)
+      | "push_borrowed" => (parseHex arg).map (.pushBorrowed i)
+      | "push_copy" => (parseHex arg).map (.pushCopy i)
+      | "register" => (parseHex arg).map (.register i)
+      | "extend" => (parseHexList arg).map (.extend i)
+      | "consume" => arg.toNat?.map (.consume i)
+      | "advance" => arg.toNat?.map (.advance i)
+      | "read" => arg.toNat?.map (.read i)
+      | "reserve" => arg.toNat?.map (.reserve i)
+      | "push_aslice" => (handle 's' arg).map (.pushASlice i)
+      | "swap_arena" => (handle 'a' arg).map (.swapArena i)
+      | _ => none
+    | none, some j, _ =>
+      match op with
+      | "a_reserve" => arg.toNat?.map (.aReserve j)
+      | _ => none
+    | none, none, some k =>
+      match op with
+      | "s_skip" => arg.toNat?.map (.sSkip k)
+      | "s_dropsuf" => arg.toNat?.map (.sDropSuf k)
+      | "s_split" => arg.toNat?.map (.sSplit k)
+      | _ => none
+    | _, _, _ => none
   | [op, x] =>
     match handle 'v' x, handle 'a' x, handle 's' x with
     | some i, _, _ =>
       match op with
-      | "pop" =>
-        match w.consume i 1 with
-        | some (w', 1) => ok s w' (touched := some i)
-        | _ => panic s
-      | "clear" => match w.clear i with | some w' => ok s w' (touched := some i) | none => (s, ["bad-op"])
-      | "take" => match w.take i with | some (w', _) => ok s w' (touched := some i) | none => (s, ["bad-op"])
-      | "clone" => match w.clone i with | some (w', _) => ok s w' (touched := some i) | none => (s, ["bad-op"])
-      | "drop" => match w.dropIov i with | some w' => ok s w' (touched := some i) | none => (s, ["bad-op"])
-      | "flush" =>
-        match w.iov i with
-        | some v => ok s (w.setIov i (some { v with arena := flush v.arena })) (touched := some i)
-        | none => (s, ["bad-op"])
-      | "take_arena" =>
-        match w.iov i with
-        | some v => let (w', _) := (w.setIov i (some { v with arena := ⟨none⟩ })).addArena v.arena; ok s w' (touched := some i)
-        | none => (s, ["bad-op"])
-      | _ => (s, ["bad-op"])
-    | none, some ai, _ =>
-      match op, w.arenas.getD ai none with
-      | "a_flush", some ar => ok s { w with arenas := listSet w.arenas ai (some (flush ar)) none }
-      | "drop_arena", some _ => ok s { w with arenas := listSet w.arenas ai none none }
-      | _, _ => (s, ["bad-op"])
-    | none, none, some si =>
-      match op, w.aslices.getD si none with
-      | "s_take", some a =>
-        let w0 := { w with aslices := listSet w.aslices si (some ASlice.empty) none }
-        let (w1, _) := w0.addASlice a
-        ok s w1
-      | "s_clone", some a => let (w1, _) := w.addASlice a; ok s w1
-      | "s_drop", some _ => ok s { w with aslices := listSet w.aslices si none none }
-      | _, _ => (s, ["bad-op"])
-    | _, _, _ => (s, ["bad-op"])
-  | ["read_n", x, count, attempts, src, script] =>
-    match count.toNat?, attempts.toNat?, parseHex src, ReadNFam.parseScript script with
-    | some c, some att, some src, some sc =>
-      let run (ar : Arena) (store : World → Arena → World) (touched : Option Nat) : St × List String :=
-        let (w1, ar', res, o) := w.readN ar ⟨src, sc⟩ c att
-        let w2 := store w1 ar'
-        match res with
-        | .ok a => let (w3, _) := w2.addASlice a; ok s w3 ["R ok reqs=" ++ natList o.reqs] touched
-        | .error k => ok s w2 ["R err " ++ toString k ++ " reqs=" ++ natList o.reqs] touched
+      | "pop" => some (.pop i)
+      | "clear" => some (.clear i)
+      | "take" => some (.take i)
+      | "clone" => some (.clone i)
+      | "drop" => some (.drop i)
+      | "flush" => some (.flush i)
+      | "take_arena" => some (.takeArena i)
+      | _ => none
+    | none, some j, _ =>
+      match op with
+      | "a_flush" => some (.aFlush j)
+      | "drop_arena" => some (.dropArena j)
+      | _ => none
+    | none, none, some k =>
+      match op with
+      | "s_take" => some (.sTake k)
+      | "s_clone" => some (.sClone k)
+      | "s_drop" => some (.sDrop k)
+      | _ => none
+    | _, _, _ => none
+  | _ => none
+
+/-- The iovec whose stable bytes are printed in full after the op (the harness's `touched`). -/
+def touchedOf : WOp → Option Nat
+  | .push i _ | .pushBorrowed i _ | .pushCopy i _ | .register i _ | .extend i _ | .consume i _ | .advance i _
+  | .read i _ | .reserve i _ | .pushASlice i _ | .swapArena i _ | .backfill i _ _ | .pop i | .clear i | .take i
+  | .clone i | .drop i | .flush i | .takeArena i | .readNIov i _ _ _ _ => some i
+  | _ => none
+
+/-- The returned-value observation of an op, computed on the pre-state (printed only when the op has a
+successor state). -/
+def retLines (w : World) : WOp → List String
+  | .register i pat =>
+    ["R len=" ++ toString (match w.registerPatch i pat with | some (_, some (_, info)) => info.len | _ => 0)]
+  | .consume i k => match w.consume i k with | some (_, n) => ["R " ++ toString n] | none => []
+  | .advance i k => match w.advance i k with | some (_, n) => ["R " ++ toString n] | none => []
+  | .read i k => match World.readInto (k + 2) w i k [] with | some (_, bytes) => ["R " ++ toHex bytes] | none => []
+  | .sSkip k n => match w.aslice k with | some a => ["R " ++ toString (a.skipPrefix n).2] | none => []
+  | .sDropSuf k n => match w.aslice k with | some a => ["R " ++ toString (a.dropSuffix n).2] | none => []
+  | .readNIov i c att src sc =>
+    match w.iov i with
+    | some v =>
+      let (_, _, res, o) := w.readN v.arena ⟨src, sc⟩ c att
+      match res with
+      | .ok _ => ["R ok reqs=" ++ natList o.reqs]
+      | .error k => ["R err " ++ toString k ++ " reqs=" ++ natList o.reqs]
+    | none => []
+  | .readNArena j c att src sc =>
+    match w.arena j with
+    | some ar =>
+      let (_, _, res, o) := w.readN ar ⟨src, sc⟩ c att
+      match res with
+      | .ok _ => ["R ok reqs=" ++ natList o.reqs]
+      | .error k => ["R err " ++ toString k ++ " reqs=" ++ natList o.reqs]
+    | none => []
+  | _ => []
+
+/-- `backfill_or_panic` with a source of the wrong size, for ANY token (own, foreign, stale or the
+empty token): a documented panic that the harness catches (`catch_unwind`) to keep the case going.
+The real function compares the sizes before it looks anything up, so nothing has changed; the
+harness prints the state after the caught panic and it is compared with the unchanged world. -/
+def caughtPanic (w : World) : WOp → Bool
+  | .backfill _ bi bs =>
+    match w.brefs.getD bi none with
+    | some (_, info) => info.len ≠ bs.length
+    | none => !bs.isEmpty
+  | _ => false
+
+/-- One parsed op: the next world is `World.step`'s. -/
+def stepWOp (s : St) (op : WOp) : St × List String :=
+  match s.w.step op with
+  | some w' => ok s w' (retLines s.w op) (touchedOf op)
+  | none =>
+    if !(WOp.handlesOk s.w op) then (s, ["bad-op"])
+    else if caughtPanic s.w op then ok s s.w ["R panicked"] (touchedOf op)
+    else panic s
+
+/-! ### Public-API completion (track `apigaps`): op words for the methods of `Model/IovecApi.lean`
+
+State-changing words are run as the `WOp` history they are equal to (`Props/C05A`: the model
+functions of `Model/IovecApi.lean` are those `World.step`s); read-only words print what the model
+function returns.  `stepApi` answers `none` for every word it does not know. -/
+
+def fmtBytes (bs : List UInt8) : String := if bs.length ≤ 16 then toHex bs else digest bs
+
+/-- the slice argument of `is_last`: `s<k>` = anchored slice k, `f<i>` / `l<i>` = first / last slice of
+iovec i's stable prefix; `some none` = there is no such slice -/
+def sliceArg (w : World) (t : String) : Option (Option Slice) :=
+  match handle 's' t, handle 'f' t, handle 'l' t with
+  | some k, _, _ => (w.aslice k).map (fun a => some a.slice)
+  | none, some i, _ => match w.iov i with
+    | some v => v.stablePrefix.map (·.head?)
+    | none => none
+  | none, none, some i => match w.iov i with
+    | some v => v.stablePrefix.map (·.getLast?)
+    | none => none
+  | _, _, _ => none
+
+/-- run a `WOp` history that an API word stands for (handles already checked) -/
+def runApi (s : St) (ops : List WOp) (ret : List String) (touched : Option Nat) : St × List String :=
+  match s.w.run ops with
+  | some w' => ok s w' ret touched
+  | none => panic s
+
+def stepApi (s : St) (ws : List String) : Option (St × List String) :=
+  let w := s.w
+  let bad : Option (St × List String) := some (s, ["bad-op"])
+  match ws with
+  | ["new_default"] => some (runApi s [.new] [] none)                       -- `OwningIovec::default()`
+  | ["s_default"] => let (w', _) := w.addASlice ASlice.empty; some (ok s w')  -- `AnchoredSlice::default()`
+  | ["bref_default", v] =>                                                  -- `Backref::default()`
+    match handle 'v' v with
+    | some i => if (w.iov i).isSome then some (runApi s [.register i []] ["R len=0"] (some i)) else bad
+    | none => bad
+  | ["a_clone", x] =>                                                       -- `ByteArena::clone()`
+    match handle 'a' x, handle 'v' x with
+    | some j, _ => if (w.arena j).isSome then some (runApi s [.newArena] [] none) else bad
+    | none, some i => if (w.iov i).isSome then some (runApi s [.newArena] [] (some i)) else bad
+    | _, _ => bad
+  | [op, hexes] =>
+    if op = "from_iter" || op = "from_iter_ref" then
+      match parseHexList hexes with
+      | some bufs => some (runApi s [.newFromSlices bufs] [] none)
+      | none => bad
+    else
+    match handle 'v' hexes with
+    | some i =>
+      match w.iov i with
+      | none => if op = "front" || op = "iter" || op = "try_stable" || op = "sc_pop" then bad else none
+      | some v =>
+        if op = "front" then
+          match v.front with
+          | some none => some (ok s w ["R front=none"] (touched := some i))
+          | some (some sl) => some (ok s w ["R front=" ++ fmtSlice sl ++ " bytes=" ++ fmtBytes (w.sliceBytes sl)] (touched := some i))
+          | none => some (panic s)
+        else if op = "iter" then
+          match v.iter with
+          | some ss => some (ok s w ["R iter n=" ++ toString ss.length ++ " at=" ++ fmtSlices ss ++ " bytes="
+              ++ fmtBytes (ss.flatMap w.sliceBytes)] (touched := some i))
+          | none => some (panic s)
+        else if op = "try_stable" then
+          some (ok s w ["R " ++ (if v.tryStable then "ok" else "err") ++ " len=" ++ toString v.slices.length
+            ++ " size=" ++ toString v.totalSize] (touched := some i))
+        else if op = "sc_pop" then
+          some (runApi s [.pop i] ["R " ++ (if v.tryStable then "ok" else "err")] (some i))
+        else none
+    | none => none
+  | ["new_from_slices_arena", a, hexes] =>
+    match handle 'a' a, parseHexList hexes with
+    | some j, some bufs =>
+      if (w.arena j).isSome then some (runApi s [.newFromArena j, .extend w.iovs.length bufs] [] none) else bad
+    | _, _ => bad
+  | ["is_last", x, t] =>
+    match sliceArg w t with
+    | none => bad
+    | some none =>
+      -- the arena handle must still be valid
       match handle 'v' x, handle 'a' x with
-      | some i, _ =>
-        match w.iov i with
-        | some v => run v.arena (fun w1 ar' => match w1.iov i with
-            | some v1 => w1.setIov i (some { v1 with arena := ar' })
-            | none => w1) (some i)
-        | none => (s, ["bad-op"])
-      | none, some ai =>
-        match w.arenas.getD ai none with
-        | some ar => run ar (fun w1 ar' => { w1 with arenas := listSet w1.arenas ai (some ar') none }) none
-        | none => (s, ["bad-op"])
-      | _, _ => (s, ["bad-op"])
-    | _, _, _, _ => (s, ["bad-op"])
-  | _ => (s, ["bad-op"])
+      | some i, _ => if (w.iov i).isSome then some (ok s w ["R none"]) else bad
+      | none, some j => if (w.arena j).isSome then some (ok s w ["R none"]) else bad
+      | _, _ => bad
+    | some (some sl) =>
+      let r := match handle 'v' x, handle 'a' x with
+        | some i, _ => w.isLastIov i sl
+        | none, some j => w.isLastArena j sl
+        | _, _ => none
+      match r with
+      | some b => some (ok s w ["R " ++ (if b then "1" else "0")])
+      | none => bad
+  | [op, v, arg] =>
+    match handle 'v' v with
+    | none => none
+    | some i =>
+      if !(op = "flatten_into" || op = "stable" || op = "sc_consume" || op = "sc_advance" || op = "sc_read"
+            || op = "c_reserve") then none else
+      match w.iov i with
+      | none => bad
+      | some iv =>
+        if op = "flatten_into" then
+          match parseHex arg with
+          | some dst =>
+            match w.flattenInto iv dst with
+            | some (okf, bytes) => some (ok s w ["R " ++ (if okf then "ok " else "err ") ++ fmtBytes bytes] (touched := some i))
+            | none => some (panic s)
+          | none => bad
+        else if op = "stable" then
+          match parseHex arg with
+          | some dst =>
+            if iv.tryStable then
+              match w.stableIovs iv, w.stableFlatten iv, w.stableFlattenInto iv dst with
+              | some ss, some fl, some into =>
+                some (ok s w ["R ok iovs=" ++ fmtSlices ss ++ " flat=" ++ fmtBytes fl ++ " into=" ++ fmtBytes into] (touched := some i))
+              | _, _, _ => some (panic s)
+            else
+              match iv.stablePrefix with
+              | some ss => some (ok s w ["R err size=" ++ toString iv.totalSize ++ " iovs=" ++ fmtSlices ss] (touched := some i))
+              | none => some (panic s)
+          | none => bad
+        else
+          match arg.toNat? with
+          | none => bad
+          | some k =>
+            let side := if iv.tryStable then "R ok " else "R err "
+            if op = "sc_consume" then
+              match w.scConsume i k with
+              | some (_, _, n) => some (runApi s [.consume i k] [side ++ toString n] (some i))
+              | none => some (panic s)
+            else if op = "sc_advance" then
+              match w.scAdvance i k with
+              | some (_, _, n) => some (runApi s [.advance i k] [side ++ toString n] (some i))
+              | none => some (panic s)
+            else if op = "sc_read" then
+              match w.scRead i k with
+              | some (_, _, bytes) => some (runApi s [.read i k] [side ++ toHex bytes] (some i))
+              | none => some (panic s)
+            else
+              -- c_reserve: `consumer().arena().ensure_capacity(k)`
+              some (runApi s [.reserve i k] [] (some i))
+  | [op, v, mode, hex] =>
+    if !(op = "sink_copy" || op = "sink_borrow") then none else
+    if !(mode = "dyn" || mode = "ref" || mode = "refdyn") then bad else
+    match handle 'v' v, parseHex hex with
+    | some i, some bs =>
+      if (w.iov i).isNone then bad else
+      -- `ZeroCopySink::append_copy` = `push_copy`, `append_borrow` = `push`
+      some (runApi s [if op = "sink_copy" then .pushCopy i bs else .push i bs] [] (some i))
+    | _, _ => bad
+  | _ => none
+
+def step (s : St) (ws : List String) : St × List String :=
+  if s.dead then (s, []) else
+  match stepApi s ws with
+  | some r => r
+  | none =>
+    match parseWOp ws with
+    | some op => stepWOp s op
+    | none => (s, ["bad-op"])
 
 def family : Family := { σ := St, init := St.init, step := step }
 
